@@ -359,7 +359,7 @@ def _fn_signature_end(toks, item):
     return item.body_open
 
 
-def splice_fn(repo, file, item_path, sections, trait=None, nth=0, opts=(), canary=False, rules=None, dropped=None, lift=False):
+def splice_fn(repo, file, item_path, sections, trait=None, nth=0, opts=(), canary=False, rules=None, dropped=None, lift=False, auto_lines=None):
     path = os.path.join(repo, file)
     if not os.path.exists(path):
         raise AnchorLost('file missing: %s' % file)
@@ -392,7 +392,9 @@ def splice_fn(repo, file, item_path, sections, trait=None, nth=0, opts=(), canar
         if len(hits) != 1:
             raise AnchorLost('%s: //@lift_anchor matches %d times (statement text changed?)' % (item_path, len(hits)))
         q = hits[0] + len(want)
-        if toks[fci[q]].text != '(' or toks[fci[q + 1]].text != '|':
+        if toks[fci[q]].text == '(' and toks[fci[q + 1]].text == 'move' and toks[fci[q + 2]].text == '|':
+            q += 1          # a `move` closure: what it captures becomes a parameter of the emitted function all the same
+        if toks[fci[q]].text != '(' and toks[fci[q]].text != 'move' or toks[fci[q + 1]].text != '|':
             raise AnchorLost('%s: //@lift_anchor is not followed by an inline closure' % item_path)
         q += 2
         cparams, cpat = [], None
@@ -618,6 +620,55 @@ def splice_fn(repo, file, item_path, sections, trait=None, nth=0, opts=(), canar
     # X2d: `//@desugar K` holds `RECV.method` (method one of map, and_then, filter) for an Option receiver and an inline closure:
     # every occurrence `RECV.method(|PAT| BODY)` is written as the match that std defines the combinator to be, so BODY is ordinary
     # code of the function.  The receiver text must occur (else the anchor is lost).
+    if auto_lines:
+        # X2d-auto (second attempt only, see verus.run_unit): a closure the unit's proof was not written for, handed to `.map` /
+        # `.and_then` / `.filter`, is written as the match it abbreviates IF its receiver is an Option — which the type checker decides:
+        # on any other receiver the rewritten text does not compile and the unit stays undecided.  The receiver is the postfix chain
+        # (names, field accesses, calls, indexing, `?`) in front of the method.
+        sections = dict(sections)
+        body_all_a = [k for k in range(body_open + 1, body_close) if toks[k].kind not in ('ws', 'comment', 'doc')]
+        have = set(' '.join(t.text for t in rs.tokenize(v) if t.kind not in ('ws', 'comment', 'doc')) for k, v in sections.items() if k.startswith('desugar '))
+        nauto = 0
+        for pp, k in enumerate(body_all_a):
+            if toks[k].text not in ('|', '||') or toks[k].line not in auto_lines or pp < 3:
+                continue
+            if toks[body_all_a[pp - 1]].text != '(' or toks[body_all_a[pp - 2]].text not in ('map', 'and_then', 'filter') or toks[body_all_a[pp - 3]].text != '.':
+                continue
+            r0 = pp - 4
+            while r0 >= 0:
+                tr = toks[body_all_a[r0]]
+                if tr.kind == 'close' and tr.text in (')', ']'):
+                    # back over a balanced group
+                    depth = 0
+                    while r0 >= 0:
+                        tt = toks[body_all_a[r0]]
+                        if tt.kind == 'close':
+                            depth += 1
+                        elif tt.kind == 'open':
+                            depth -= 1
+                            if depth == 0:
+                                break
+                        r0 -= 1
+                    r0 -= 1
+                    continue
+                if tr.kind == 'ident' and tr.text not in ('if', 'else', 'match', 'return', 'let', 'in', 'while', 'for', 'loop', 'move', 'mut', 'ref', 'as', 'break', 'continue'):
+                    r0 -= 1
+                    continue
+                if tr.text in ('.', '?') or (tr.text == ':' and r0 >= 1 and toks[body_all_a[r0 - 1]].text == ':') or (tr.text == ':' and toks[body_all_a[r0 + 1]].text == ':'):
+                    r0 -= 1
+                    continue
+                break
+            start = r0 + 1
+            if start > pp - 4:
+                continue
+            anchor = ' '.join(toks[body_all_a[j]].text for j in range(start, pp - 1))
+            if anchor in have:
+                continue
+            have.add(anchor)
+            sections['desugar zauto%03d optional' % nauto] = anchor
+            nauto += 1
+        if nauto:
+            rules['X2d-auto'] = rules.get('X2d-auto', 0) + nauto
     for dk in sorted(k for k in sections if k.startswith('desugar ')):
         want_t = [t for t in rs.tokenize(sections[dk]) if t.kind not in ('ws', 'comment', 'doc')]
         # (trailing commas are layout: see X7)
@@ -1131,7 +1182,7 @@ def struct_fields(repo, file, struct, fields, nth=0):
     return out, [None] * len(out), info
 
 
-def build(repo, template_path, canary=False) -> SpliceResult:
+def build(repo, template_path, canary=False, auto=False) -> SpliceResult:
     tlines = open(template_path).read().split('\n')
     out, lmap = [], []
     functions, rules, dropped = [], {}, []
@@ -1184,8 +1235,15 @@ def build(repo, template_path, canary=False) -> SpliceResult:
                 sections['spec'] = ''
             if is_main:
                 canary_points += 1
+            if auto:
+                # second attempt: first find the closures no rule rewrote, then let X2d-auto try them
+                _l, _m, info0 = splice_fn(repo, kv['file'], kv['item'], sections, kv.get('trait'), int(kv.get('nth', 0)),
+                                          opts, is_canary_target, {}, [], lift=('lift' in kv))
+                auto_lines = set(info0.get('closures_left') or [])
+            else:
+                auto_lines = None
             lines, lm, info = splice_fn(repo, kv['file'], kv['item'], sections, kv.get('trait'), int(kv.get('nth', 0)),
-                                        opts, is_canary_target, rules, dropped, lift=('lift' in kv))
+                                        opts, is_canary_target, rules, dropped, lift=('lift' in kv), auto_lines=auto_lines)
             info['role'] = kv.get('role', 'helper')
             info['closures_ok'] = int(kv.get('closures_ok', 0))
             functions.append(info)
